@@ -59,6 +59,21 @@ where
     where
         Sx2: Data<Elem = Sd::Elem>,
     {
+        #[cfg(ndarray_interp_verif)]
+        if crate::verif_hooks::api::enabled() {
+            use crate::verif_hooks::api;
+            api::emit(format!(
+                "{{\"ev\":\"B1\",\"key\":\"L|{:p}|{:p}|{}\",\"el\":\"{}\",\"x\":{},\"ds\":{},\"dv\":{},\"st\":{{\"k\":\"Linear\",\"ex\":{}}},\"out\":\"Ok\"}}",
+                _x.as_ptr(),
+                _data.as_ptr(),
+                self.extrapolate as u8,
+                api::tname::<Sd::Elem>(),
+                api::seq(_x.iter()),
+                api::shape(_data.shape()),
+                api::seq(_data.iter()),
+                self.extrapolate as u8
+            ));
+        }
         Ok(self)
     }
 }
@@ -76,6 +91,19 @@ where
         target: ArrayViewMut<'_, <Sd>::Elem, <D as Dimension>::Smaller>,
         x: Sx::Elem,
     ) -> Result<(), InterpolateError> {
+        // call log (answered calls): keep the caller's view, work on a reborrow of it, describe the call at the end
+        #[cfg(ndarray_interp_verif)]
+        let mut verif_target = target;
+        #[cfg(ndarray_interp_verif)]
+        #[allow(unused_mut)]
+        let mut target = verif_target.view_mut();
+        #[cfg(ndarray_interp_verif)]
+        let verif_key = format!(
+            "L|{:p}|{:p}|{}",
+            interpolator.x.as_ptr(),
+            interpolator.data.as_ptr(),
+            self.extrapolate as u8
+        );
         let this = interpolator;
         if !self.extrapolate && !this.is_in_range(x) {
             return Err(InterpolateError::OutOfBounds(format!(
@@ -94,6 +122,8 @@ where
         Zip::from(y1).and(y2).and(target).for_each(|&y1, &y2, t| {
             *t = Self::calc_frac((x1, y1), (x2, y2), x);
         });
+        #[cfg(ndarray_interp_verif)]
+        crate::verif_hooks::api::query1(&verif_key, &x, Some(&verif_target));
         Ok(())
     }
 }
